@@ -1,0 +1,289 @@
+//go:build verif
+
+// Machine-checked contracts for package encode (comment-only; read by /verif/govc).
+// Ghost state of a buffer.Buffer b: blen(b) bytes written, stored in object bobj(b) from offset 0.
+// Every encoder: the appended bytes are a function of the arguments only (determinism, C08),
+// follow the pinned layout with LITERAL type codes, and the bytes before them are preserved.
+package encode
+
+//@ package github.com/basecomplextech/spec/internal/encode
+
+//@ func encodeSize
+//@   safety[C08]
+//@   requires b != nil
+//@   modifies buffer.len at b
+//@   modifies buffer.obj at b
+//@   modifies uint8
+//@   let L = blen(b)
+//@   ensures result == uvarintLen(size) && result <= 5 && blen(b) == L + result && L >= 0
+//@   ensures isUvarint(bytesOf(bobj(b)), L, result, size)
+//@   ensures forall i :: 0 <= i && i < L ==> bytesOf(bobj(b))[i] == old(bytesOf(bobj(b)))[i]
+
+//@ func encodeSizeType
+//@   safety[C08]
+//@   requires b != nil
+//@   modifies buffer.len at b
+//@   modifies buffer.obj at b
+//@   modifies uint8
+//@   let L = blen(b)
+//@   ensures result == uvarintLen(size) + 1 && blen(b) == L + result && L >= 0
+//@   ensures isUvarint(bytesOf(bobj(b)), L, result - 1, size) && bytesOf(bobj(b))[L + result - 1] == type_
+//@   ensures forall i :: 0 <= i && i < L ==> bytesOf(bobj(b))[i] == old(bytesOf(bobj(b)))[i]
+
+// ---- bool, byte
+
+//@ func EncodeBool
+//@   safety[C08]
+//@   requires b != nil
+//@   modifies buffer.len at b
+//@   modifies buffer.obj at b
+//@   modifies uint8
+//@   let L = blen(b)
+//@   ensures[C08,C10] result1 == nil && result0 == 1 && blen(b) == L + 1
+//@   ensures[C08,C10] bytesOf(bobj(b))[L] == ite(v, 1, 2)
+//@   ensures[C08] forall i :: 0 <= i && i < L ==> bytesOf(bobj(b))[i] == old(bytesOf(bobj(b)))[i]
+
+//@ func EncodeByte
+//@   safety[C08]
+//@   requires b != nil
+//@   modifies buffer.len at b
+//@   modifies buffer.obj at b
+//@   modifies uint8
+//@   let L = blen(b)
+//@   ensures[C08,C10] result1 == nil && result0 == 2 && blen(b) == L + 2
+//@   ensures[C08,C10] bytesOf(bobj(b))[L] == v && bytesOf(bobj(b))[L + 1] == 3
+//@   ensures[C08] forall i :: 0 <= i && i < L ==> bytesOf(bobj(b))[i] == old(bytesOf(bobj(b)))[i]
+
+// ---- integers: varint(zigzag(v)) ++ type
+
+//@ func EncodeInt16
+//@   safety[C08]
+//@   requires b != nil
+//@   modifies buffer.len at b
+//@   modifies buffer.obj at b
+//@   modifies uint8
+//@   let L = blen(b)
+//@   ensures[C08,C10] result1 == nil && result0 == uvarintLen(zigzag(v)) + 1 && blen(b) == L + result0
+//@   ensures[C08,C10] isUvarint(bytesOf(bobj(b)), L, result0 - 1, zigzag(v)) && bytesOf(bobj(b))[L + result0 - 1] == 10
+//@   ensures[C08] forall i :: 0 <= i && i < L ==> bytesOf(bobj(b))[i] == old(bytesOf(bobj(b)))[i]
+
+//@ func EncodeInt32
+//@   safety[C08]
+//@   requires b != nil
+//@   modifies buffer.len at b
+//@   modifies buffer.obj at b
+//@   modifies uint8
+//@   let L = blen(b)
+//@   ensures[C08,C10] result1 == nil && result0 == uvarintLen(zigzag(v)) + 1 && blen(b) == L + result0
+//@   ensures[C08,C10] isUvarint(bytesOf(bobj(b)), L, result0 - 1, zigzag(v)) && bytesOf(bobj(b))[L + result0 - 1] == 11
+//@   ensures[C08] forall i :: 0 <= i && i < L ==> bytesOf(bobj(b))[i] == old(bytesOf(bobj(b)))[i]
+//@   canary[C08] result0 <= 3
+
+//@ func EncodeInt64
+//@   safety[C08]
+//@   requires b != nil
+//@   modifies buffer.len at b
+//@   modifies buffer.obj at b
+//@   modifies uint8
+//@   let L = blen(b)
+//@   ensures[C08,C10] result1 == nil && result0 == uvarintLen(zigzag(v)) + 1 && blen(b) == L + result0
+//@   ensures[C08,C10] isUvarint(bytesOf(bobj(b)), L, result0 - 1, zigzag(v)) && bytesOf(bobj(b))[L + result0 - 1] == 12
+//@   ensures[C08] forall i :: 0 <= i && i < L ==> bytesOf(bobj(b))[i] == old(bytesOf(bobj(b)))[i]
+
+//@ func EncodeUint16
+//@   safety[C08]
+//@   requires b != nil
+//@   modifies buffer.len at b
+//@   modifies buffer.obj at b
+//@   modifies uint8
+//@   let L = blen(b)
+//@   ensures[C08,C10] result1 == nil && result0 == uvarintLen(v) + 1 && blen(b) == L + result0
+//@   ensures[C08,C10] isUvarint(bytesOf(bobj(b)), L, result0 - 1, v) && bytesOf(bobj(b))[L + result0 - 1] == 20
+//@   ensures[C08] forall i :: 0 <= i && i < L ==> bytesOf(bobj(b))[i] == old(bytesOf(bobj(b)))[i]
+
+//@ func EncodeUint32
+//@   safety[C08]
+//@   requires b != nil
+//@   modifies buffer.len at b
+//@   modifies buffer.obj at b
+//@   modifies uint8
+//@   let L = blen(b)
+//@   ensures[C08,C10] result1 == nil && result0 == uvarintLen(v) + 1 && blen(b) == L + result0
+//@   ensures[C08,C10] isUvarint(bytesOf(bobj(b)), L, result0 - 1, v) && bytesOf(bobj(b))[L + result0 - 1] == 21
+//@   ensures[C08] forall i :: 0 <= i && i < L ==> bytesOf(bobj(b))[i] == old(bytesOf(bobj(b)))[i]
+
+//@ func EncodeUint64
+//@   safety[C08]
+//@   requires b != nil
+//@   modifies buffer.len at b
+//@   modifies buffer.obj at b
+//@   modifies uint8
+//@   let L = blen(b)
+//@   ensures[C08,C10] result1 == nil && result0 == uvarintLen(v) + 1 && blen(b) == L + result0
+//@   ensures[C08,C10] isUvarint(bytesOf(bobj(b)), L, result0 - 1, v) && bytesOf(bobj(b))[L + result0 - 1] == 22
+//@   ensures[C08] forall i :: 0 <= i && i < L ==> bytesOf(bobj(b))[i] == old(bytesOf(bobj(b)))[i]
+
+// ---- fixed-width binaries: raw bytes ++ type
+
+//@ func EncodeBin64
+//@   safety[C08]
+//@   requires b != nil
+//@   modifies buffer.len at b
+//@   modifies buffer.obj at b
+//@   modifies uint8
+//@   let L = blen(b)
+//@   ensures[C08,C10] result1 == nil && result0 == 9 && blen(b) == L + 9
+//@   ensures[C08,C10] (forall i :: 0 <= i && i < 8 ==> bytesOf(bobj(b))[L + i] == v[i]) && bytesOf(bobj(b))[L + 8] == 30
+//@   ensures[C08] forall i :: 0 <= i && i < L ==> bytesOf(bobj(b))[i] == old(bytesOf(bobj(b)))[i]
+
+//@ func EncodeBin128
+//@   safety[C08]
+//@   requires b != nil
+//@   modifies buffer.len at b
+//@   modifies buffer.obj at b
+//@   modifies uint8
+//@   let L = blen(b)
+//@   ensures[C08,C10] result1 == nil && result0 == 17 && blen(b) == L + 17
+//@   ensures[C08,C10] (forall i :: 0 <= i && i < 16 ==> bytesOf(bobj(b))[L + i] == v[i]) && bytesOf(bobj(b))[L + 16] == 31
+//@   ensures[C08] forall i :: 0 <= i && i < L ==> bytesOf(bobj(b))[i] == old(bytesOf(bobj(b)))[i]
+
+//@ func EncodeBin256
+//@   safety[C08]
+//@   requires b != nil
+//@   modifies buffer.len at b
+//@   modifies buffer.obj at b
+//@   modifies uint8
+//@   let L = blen(b)
+//@   ensures[C08,C10] result1 == nil && result0 == 33 && blen(b) == L + 33
+//@   ensures[C08,C10] (forall i :: 0 <= i && i < 32 ==> bytesOf(bobj(b))[L + i] == v[i]) && bytesOf(bobj(b))[L + 32] == 32
+//@   ensures[C08] forall i :: 0 <= i && i < L ==> bytesOf(bobj(b))[i] == old(bytesOf(bobj(b)))[i]
+
+// ---- bytes, string, struct trailer
+
+//@ func EncodeBytes
+//@   safety[C08]
+//@   requires b != nil
+//@   requires obj(v) != bobj(b)
+//@   modifies buffer.len at b
+//@   modifies buffer.obj at b
+//@   modifies uint8
+//@   let L = blen(b)
+//@   let n = len(v)
+//@   ensures[C08,C10] n <= 2147483647 ==> result1 == nil && result0 == n + uvarintLen(n) + 1 && blen(b) == L + result0
+//@   ensures[C08,C10] n <= 2147483647 ==> (forall i :: 0 <= i && i < n ==> bytesOf(bobj(b))[L + i] == old(v[i]))
+//@   ensures[C08,C10] n <= 2147483647 ==> isUvarint(bytesOf(bobj(b)), L + n, uvarintLen(n), n) && bytesOf(bobj(b))[L + result0 - 1] == 50
+//@   ensures[C08] n > 2147483647 ==> result1 != nil && blen(b) == L
+//@   ensures[C08] forall i :: 0 <= i && i < L ==> bytesOf(bobj(b))[i] == old(bytesOf(bobj(b)))[i]
+
+//@ func EncodeString
+//@   safety[C08]
+//@   requires b != nil
+//@   requires obj(s) != bobj(b)
+//@   modifies buffer.len at b
+//@   modifies buffer.obj at b
+//@   modifies uint8
+//@   let L = blen(b)
+//@   let n = len(s)
+//@   ensures[C08,C10] n <= 2147483647 ==> result1 == nil && result0 == n + 1 + uvarintLen(n) + 1 && blen(b) == L + result0
+//@   ensures[C08,C10] n <= 2147483647 ==> (forall i :: 0 <= i && i < n ==> bytesOf(bobj(b))[L + i] == old(s[i]))
+//@   ensures[C08] n <= 2147483647 ==> bytesOf(bobj(b))[L + n] == 0
+//@   ensures[C08,C10] n <= 2147483647 ==> isUvarint(bytesOf(bobj(b)), L + n + 1, uvarintLen(n), n) && bytesOf(bobj(b))[L + result0 - 1] == 60
+//@   ensures[C08] n > 2147483647 ==> result1 != nil && blen(b) == L
+//@   ensures[C08] forall i :: 0 <= i && i < L ==> bytesOf(bobj(b))[i] == old(bytesOf(bobj(b)))[i]
+
+//@ func EncodeStruct
+//@   safety[C08]
+//@   requires b != nil
+//@   modifies buffer.len at b
+//@   modifies buffer.obj at b
+//@   modifies uint8
+//@   let L = blen(b)
+//@   ensures[C08] 0 <= dataSize && dataSize <= 2147483647 ==> result1 == nil && result0 == uvarintLen(dataSize) + 1 && blen(b) == L + result0
+//@        && isUvarint(bytesOf(bobj(b)), L, result0 - 1, dataSize) && bytesOf(bobj(b))[L + result0 - 1] == 90
+//@   ensures[C08] forall i :: 0 <= i && i < L ==> bytesOf(bobj(b))[i] == old(bytesOf(bobj(b)))[i]
+
+// ---- tables: entries ++ varint(dataSize) ++ varint(tableSize) ++ type
+
+//@ func encodeMessageTable
+//@   safety[C08]
+//@   requires b != nil
+//@   requires !big ==> (forall k :: 0 <= k && k < len(table) ==> table[k].Tag <= 255 && table[k].Offset <= 65535)
+//@   modifies buffer.len at b
+//@   modifies buffer.obj at b
+//@   modifies uint8
+//@   let L = blen(b)
+//@   let fs = ite(big, 6, 3)
+//@   ensures[C08,C01] len(table) * fs <= 2147483647 ==> result1 == nil && result0 == len(table) * fs && blen(b) == L + result0 && L >= 0
+//@   ensures[C08,C01] len(table) * fs <= 2147483647 && !big ==> (forall k :: 0 <= k && k < len(table) ==>
+//@        smallTag(bytesOf(bobj(b)), L, k) == table[k].Tag && smallOff(bytesOf(bobj(b)), L, k) == table[k].Offset)
+//@   ensures[C08,C01] len(table) * fs <= 2147483647 && big ==> (forall k :: 0 <= k && k < len(table) ==>
+//@        bigTag(bytesOf(bobj(b)), L, k) == table[k].Tag && bigOff(bytesOf(bobj(b)), L, k) == table[k].Offset)
+//@   ensures[C08] len(table) * fs > 2147483647 ==> result1 != nil && blen(b) == L
+//@   ensures[C08] forall i :: 0 <= i && i < L ==> bytesOf(bobj(b))[i] == old(bytesOf(bobj(b)))[i]
+//@   loop 1 modifies uint8 at p
+//@   loop 1 invariant 0 - 1 <= rangeindex && rangeindex < len(table) && len(p) == size && cap(p) >= size && lo(p) == L && obj(p) == bobj(b) && obj(p) != obj(table)
+//@   loop 1 invariant (big ==> fieldSize == 6 && off == (rangeindex + 1) * 6 && size == len(table) * 6) && (!big ==> fieldSize == 3 && off == (rangeindex + 1) * 3 && size == len(table) * 3)
+//@   loop 1 invariant !big ==> (forall k :: 0 <= k && k <= rangeindex ==> smallTag(mem(p), L, k) == table[k].Tag && smallOff(mem(p), L, k) == table[k].Offset)
+//@   loop 1 invariant big ==> (forall k :: 0 <= k && k <= rangeindex ==> bigTag(mem(p), L, k) == table[k].Tag && bigOff(mem(p), L, k) == table[k].Offset)
+//@   loop 1 invariant forall i :: 0 <= i && i < L ==> mem(p)[i] == old(bytesOf(bobj(b)))[i]
+
+//@ func encodeListTable
+//@   safety[C08]
+//@   requires b != nil
+//@   requires !big ==> (forall k :: 0 <= k && k < len(table) ==> table[k].Offset <= 65535)
+//@   modifies buffer.len at b
+//@   modifies buffer.obj at b
+//@   modifies uint8
+//@   let L = blen(b)
+//@   let es = ite(big, 4, 2)
+//@   ensures[C08,C01] len(table) * es <= 2147483647 ==> result1 == nil && result0 == len(table) * es && blen(b) == L + result0 && L >= 0
+//@   ensures[C08,C01] len(table) * es <= 2147483647 && !big ==> (forall k :: 0 <= k && k < len(table) ==> listSmallEnd(bytesOf(bobj(b)), L, k) == table[k].Offset)
+//@   ensures[C08,C01] len(table) * es <= 2147483647 && big ==> (forall k :: 0 <= k && k < len(table) ==> listBigEnd(bytesOf(bobj(b)), L, k) == table[k].Offset)
+//@   ensures[C08] len(table) * es > 2147483647 ==> result1 != nil && blen(b) == L
+//@   ensures[C08] forall i :: 0 <= i && i < L ==> bytesOf(bobj(b))[i] == old(bytesOf(bobj(b)))[i]
+//@   loop 1 modifies uint8 at p
+//@   loop 1 invariant 0 - 1 <= rangeindex && rangeindex < len(table) && len(p) == size && cap(p) >= size && lo(p) == L && obj(p) == bobj(b) && obj(p) != obj(table)
+//@   loop 1 invariant (big ==> elemSize == 4 && off == (rangeindex + 1) * 4 && size == len(table) * 4) && (!big ==> elemSize == 2 && off == (rangeindex + 1) * 2 && size == len(table) * 2)
+//@   loop 1 invariant !big ==> (forall k :: 0 <= k && k <= rangeindex ==> listSmallEnd(mem(p), L, k) == table[k].Offset)
+//@   loop 1 invariant big ==> (forall k :: 0 <= k && k <= rangeindex ==> listBigEnd(mem(p), L, k) == table[k].Offset)
+//@   loop 1 invariant forall i :: 0 <= i && i < L ==> mem(p)[i] == old(bytesOf(bobj(b)))[i]
+
+//@ func EncodeMessageTable
+//@   safety[C08]
+//@   requires b != nil
+//@   modifies buffer.len at b
+//@   modifies buffer.obj at b
+//@   modifies uint8
+//@   let L = blen(b)
+//@   let big = exists k :: 0 <= k && k < len(table) && (table[k].Tag > 255 || table[k].Offset > 65535)
+//@   let ts = len(table) * ite(big, 6, 3)
+//@   let ok = 0 <= dataSize && dataSize <= 2147483647 && ts <= 2147483647
+//@   let M = bytesOf(bobj(b))
+//@   ensures[C08,C01] ok ==> result1 == nil && result0 == ts + uvarintLen(dataSize) + uvarintLen(ts) + 1 && blen(b) == L + result0
+//@   ensures[C08,C01] ok && !big ==> (forall k :: 0 <= k && k < len(table) ==> smallTag(bytesOf(bobj(b)), L, k) == table[k].Tag && smallOff(bytesOf(bobj(b)), L, k) == table[k].Offset)
+//@   ensures[C08,C01] ok && big ==> (forall k :: 0 <= k && k < len(table) ==> bigTag(bytesOf(bobj(b)), L, k) == table[k].Tag && bigOff(bytesOf(bobj(b)), L, k) == table[k].Offset)
+//@   ensures[C08,C01] ok ==> isUvarint(bytesOf(bobj(b)), L + ts, uvarintLen(dataSize), dataSize)
+//@        && isUvarint(bytesOf(bobj(b)), L + ts + uvarintLen(dataSize), uvarintLen(ts), ts)
+//@        && bytesOf(bobj(b))[L + result0 - 1] == ite(big, 81, 80)
+//@   ensures[C08] dataSize > 2147483647 ==> result1 != nil && blen(b) == L
+//@   ensures[C08] forall i :: 0 <= i && i < L ==> bytesOf(bobj(b))[i] == old(bytesOf(bobj(b)))[i]
+
+//@ func EncodeListTable
+//@   safety[C08]
+//@   requires b != nil
+//@   requires forall k :: 0 <= k && k < len(table) ==> table[k].Offset <= table[len(table)-1].Offset
+//@   modifies buffer.len at b
+//@   modifies buffer.obj at b
+//@   modifies uint8
+//@   let L = blen(b)
+//@   let big = len(table) > 255 || (exists k :: 0 <= k && k < len(table) && table[k].Offset > 65535)
+//@   let ts = len(table) * ite(big, 4, 2)
+//@   let ok = 0 <= dataSize && dataSize <= 2147483647 && ts <= 2147483647
+//@   ensures[C08,C01] ok ==> result1 == nil && result0 == ts + uvarintLen(dataSize) + uvarintLen(ts) + 1 && blen(b) == L + result0
+//@   ensures[C08,C01] ok && !big ==> (forall k :: 0 <= k && k < len(table) ==> listSmallEnd(bytesOf(bobj(b)), L, k) == table[k].Offset)
+//@   ensures[C08,C01] ok && big ==> (forall k :: 0 <= k && k < len(table) ==> listBigEnd(bytesOf(bobj(b)), L, k) == table[k].Offset)
+//@   ensures[C08,C01] ok ==> isUvarint(bytesOf(bobj(b)), L + ts, uvarintLen(dataSize), dataSize)
+//@        && isUvarint(bytesOf(bobj(b)), L + ts + uvarintLen(dataSize), uvarintLen(ts), ts)
+//@        && bytesOf(bobj(b))[L + result0 - 1] == ite(big, 71, 70)
+//@   ensures[C08] dataSize > 2147483647 ==> result1 != nil && blen(b) == L
+//@   ensures[C08] forall i :: 0 <= i && i < L ==> bytesOf(bobj(b))[i] == old(bytesOf(bobj(b)))[i]
